@@ -367,6 +367,11 @@ static inline void __verif_trap(void)
 #define VERIF_ASSERT(name, ...) ({ if (!(__VA_ARGS__)) __verif_native_fail("assert", #name); })
 #endif
 
+/* __builtin_assume(e) (DISPATCH_COMPILER_CAN_ASSUME / OS_COMPILER_CAN_ASSUME) is an OPTIMISER hint: real code has undefined
+ * behaviour when it is false, it does not make the paths go away.  It is therefore an obligation (assert), never an
+ * assumption: as __CPROVER_assume it silently removed exactly the paths on which dispatch_once's inline fast path is wrong. */
+#define __verif_compiler_hint(e) VERIF_ASSERT(compiler_hint_holds, (e))
+
 /* side-car loop contract for the k-th loop (for/while/do) of a repository function */
 #define VERIF_LOOP_CONTRACT(function, k, ...) __VERIF_LOOPDEF(function, k, __VA_ARGS__)
 
